@@ -36,3 +36,10 @@ package bscript
 //@   ensures[C14.type_p2pkh_iff] (= (= result "pubkeyhash") (old (spec.is_p2pkh (deref s))))
 //@   ensures[C14.type_data_only_if] (=> (= result "nulldata") (old (spec.is_data (deref s))))
 //@   ensures[C14.type_empty_iff] (= (= result "empty") (= (old (len s)) 0))
+
+//@ func bscript.NewFromBytes
+//@   fresh result
+//@   ensures[newfrombytes] (and (not (nil? result)) (= (deref result) b))
+
+//@ func bscript.NewFromHexString
+//@   ensures[fromhex_nonnil] (=> (= err nil) (not (nil? result)))
